@@ -1035,3 +1035,23 @@ def tr_dumps(texts, model='default', indent=-1, compact=False):
         s4 = sio.getvalue()
         back('dump(StringIO)+load(StringIO)', s4, lambda: penman.load(io.StringIO(s4), model=m))
     return t
+
+
+# ============================================================ API surface (spec growth, non-gating)
+def tr_api_tree(node, meta=None):
+    node = to_node(node)
+    t = Tree(node, metadata=dict(meta or {'k': 'v'}))
+    ft = ab.check_tree_roundtrip(node, meta)
+    return {'kind': 'api-tree', 'tree': ft, 'nodes': [ab.atom(n[0]) for n in t.nodes()], 'walk': [list(p) for p, _ in t.walk()],
+            'eq_without_meta': bool(t == Tree(node, metadata={'other': 'x'})), 'eq_self': bool(t == node)}
+
+
+def tr_api_grapheq(tr1, top1, tr2, top2):
+    a, b = build_graph(tr1, None, top1), build_graph(tr2, None, top2)
+    j = lambda g: {'top': ab.atom(g.top), 'tr': [ab.triple(x) for x in g.triples]}   # noqa: E731
+    return {'kind': 'api-graph-eq', 'a': j(a), 'b': j(b), 'eq': bool(a == b)}
+
+
+def tr_api_aln(text):
+    m = surface.Alignment.from_string('~' + text)
+    return {'kind': 'api-aln', 'text': text, 'str': str(m), 'prefix': m.prefix or '', 'indices': list(m.indices)}
